@@ -13,9 +13,9 @@ apply_ok=1
 git apply --3way $src/patch.diff >/dev/null 2>&1 || git apply $src/patch.diff >/dev/null 2>&1 || apply_ok=0
 git reset -q >/dev/null 2>&1
 build_ok=0; suite_ok=0; demo_fail_with=0; demo_pass_without=0
-demo_rel=$(grep -o '[a-zA-Z0-9_/.-]*verif_seed_demo[a-zA-Z0-9_]*\.go' $src/demo_path.txt | head -1)
+demo_rel=${DEMO_REL:-$(grep -o '[a-zA-Z0-9_/.-]*verif_seed_demo[a-zA-Z0-9_]*\.go' $src/demo_path.txt | grep -v '^/' | head -1)}
 [ -z "$demo_rel" ] && demo_rel=$(grep -o '[a-zA-Z0-9_/.-]*_test\.go' $src/demo_path.txt | head -1)
-demo_file=$(ls $src/*_test.go 2>/dev/null | head -1)
+demo_file=${DEMO_FILE:-$(ls $src/*_test.go 2>/dev/null | head -1)}
 case "$demo_rel" in */*) ;; *) demo_rel=$(grep -o "[a-zA-Z0-9_/.-]*/" $src/demo_path.txt | grep -v "^/" | head -1)$demo_rel;; esac
 pkg=./$(dirname "$demo_rel")/
 if [ $apply_ok = 1 ]; then
